@@ -333,6 +333,7 @@ Emit == Terminal => PrintT(<<"SCHED", step>>)
 AskAll == {r \in State \X State : r[2] # ST /\ r[1] # r[2]}
 AskCore == {<<BO, JO>>, <<BO, SY>>, <<SY, JO>>, <<SY, CO>>, <<JO, CO>>, <<CO, SY>>, <<JO, SY>>,
             <<BO, BR>>, <<BR, BO>>, <<ST, BO>>, <<ST, JO>>, <<ST, SY>>, <<SY, HA>>, <<HA, CO>>, <<HA, SY>>}
+AskQuick == {<<BO, JO>>, <<BO, SY>>, <<SY, CO>>, <<SY, JO>>, <<JO, SY>>, <<BO, BR>>, <<ST, JO>>, <<ST, SY>>}
 AskSched == {<<BO, JO>>, <<BO, CO>>, <<BO, SY>>, <<SY, CO>>, <<JO, CO>>, <<ST, JO>>}
 AskHold == {<<BO, SY>>, <<ST, JO>>, <<ST, SY>>, <<ST, BO>>}
 AskY3 == {<<BO, JO>>, <<HA, CO>>, <<BO, SY>>, <<SY, HA>>}
